@@ -376,7 +376,7 @@ def legal_iter_modes(m, with_range, include_match=False):
 
 @st.composite
 def configs(draw, spec, force=(), forbid=(), p_on=0.5, params=True, split=True, modes=None,
-            struct_names=True, fixed_modes=None, iter_match=False, p_vis=0.2):
+            struct_names=True, fixed_modes=None, iter_match=False, p_vis=0.2, p_sorted=0.0):
     """A legal configuration for `spec` (see DESIGN 3.5)."""
     m = M.RefEnum(spec)
     chosen = []
@@ -427,6 +427,15 @@ def configs(draw, spec, force=(), forbid=(), p_on=0.5, params=True, split=True, 
         if len(ps) > 1 and draw(st.booleans()):
             ps = list(draw(st.permutations(ps)))
         feats.append({"f": f, "params": ps})
+    if p_sorted > 0 and chance(draw, p_sorted):
+        # the compile-time feature, only with the parameters this declaration satisfies
+        flags = []
+        if all(m.values[i] < m.values[i + 1] for i in range(m.n - 1)):
+            flags.append("value")
+        if all(m.names[i].encode() < m.names[i + 1].encode() for i in range(m.n - 1)):
+            flags.append("name")
+        pick = draw(st.lists(st.sampled_from(flags), unique=True)) if flags else []
+        feats.append({"f": "sorted", "params": [[k, None] for k in pick]})
     if len(feats) > 1:
         feats = list(draw(st.permutations(feats)))
     cfg = {"feats": feats}
